@@ -303,7 +303,8 @@ Theorem combine_is_oneshot mwm wsm wmin y0 x0 nr nc (groups : list (list (bool *
   (* H_pos: table weights are positive *)
   (forall g ic p c' w, In g groups -> In ic g -> In p (snd ic) -> In (c', w) (px_fp p) -> 0 < w) ->
   (* H_thresh: every table weight reaches both effective thresholds (one-shot: weight_min by default; dask: EPSILON) *)
-  (forall g ic p c' w, In g groups -> In ic g -> In p (snd ic) -> In (c', w) (px_fp p) ->
+  (sum_min_write RO (sum_min_fornav RO wsm wmin) = sum_min_write RO wsm \/
+   forall g ic p c' w, In g groups -> In ic g -> In p (snd ic) -> In (c', w) (px_fp p) ->
      sum_min_write RO (sum_min_fornav RO wsm wmin) <= w /\ sum_min_write RO wsm <= w) ->
   (* H_empty: an input chunk replaced by a placeholder has no valid pixel whose footprint touches this output chunk *)
   (forall g ic p c' w, In g groups -> In ic g -> fst ic = true -> In p (snd ic) -> px_val p <> None ->
@@ -335,7 +336,8 @@ Proof.
     assert (E : contribs (concat (map (fun g => concat (map snd g)) sg)) (fst c - y0, snd c - x0)%Z = contribs allpx c).
     { unfold sg, allpx. rewrite !contribs_concat, !map_map. f_equal. apply map_ext. intros g.
       rewrite !contribs_concat, !map_map. f_equal. apply map_ext. intros ic. cbn [snd]. apply contribs_sub. assumption. }
-    rewrite E. symmetry. apply (write_cell_thresh mwm _ _ (contribs allpx c)); try apply sum_min_write_pos.
+    rewrite E. destruct Hth as [Eth|Hth]; [rewrite Eth; reflexivity|].
+    symmetry. apply (write_cell_thresh mwm _ _ (contribs allpx c)); try apply sum_min_write_pos.
     + intros v w Hin. destruct (Hin_all v w Hin) as (g & ic & p & Hg & Hic & Hp & _ & Hf). eapply Hpos; eauto.
     + intros v w Hin. destruct (Hin_all v w Hin) as (g & ic & p & Hg & Hic & Hp & _ & Hf). eapply Hth; eauto.
   - apply sum_min_write_pos.
